@@ -19,6 +19,9 @@ type QSpec struct {
 	FailSub  bool
 	Events   int  // number of query events started
 	Shutdown bool // the service is shut down while the event is active: the nil call cannot run any more
+	// MinNil: the configured duration; the scenario reports the virtual time of the start ("qstart <ns>") and
+	// of the nil call ("qnil <ns>"): the event may not expire earlier
+	MinNil time.Duration
 }
 
 const qDuration = time.Second
@@ -215,6 +218,40 @@ func init() {
 		}, sp
 	}})
 
+	// QEduration: the query event duration is changed between two starts of the service; an event of the second
+	// start lives for the new duration, and a request inside it is answered.
+	reg(&Scenario{Name: "QEduration", Make: func(cfg Cfg) (func(), *Spec) {
+		qs := &QSpec{CB: "model", Requests: map[string]string{"RQ1": "valid"}, Events: 1, MinNil: 3 * qDuration}
+		sp := &Spec{Closes: -1, Query: qs}
+		return func() {
+			q := newQWorld(cfg)
+			sdone := make(chan struct{}, 2)
+			q.StartServe(sdone)
+			shutdown(q.World)
+			vsched.Recv(sdone)
+			vsched.Emit(Mon, "epoch2")
+			q.S.SetQueryEventDuration(3 * qDuration)
+			q.StartServe(sdone)
+			q.S.With("t.q", func(r res.Resource) {
+				q.CB("start0", r.Group(), "g")
+				cb := q.qcb("model", 0)
+				vsched.Emit(Mon, fmt.Sprintf("qstart %d", vsched.Now().UnixNano()))
+				r.QueryEvent(func(qr res.QueryRequest) {
+					if qr == nil {
+						vsched.Emit(Mon, fmt.Sprintf("qnil %d", vsched.Now().UnixNano()))
+					}
+					cb(qr)
+				})
+			})
+			subject := vsched.Recv(q.subj)
+			vsched.Sleep(2 * qDuration) // past the old duration, inside the new one
+			q.requester(subject, "RQ1", "valid")
+			vsched.Recv(q.nilCh)
+			vsched.AwaitQuiescence()
+			vsched.Emit(Mon, "quiesced")
+		}, sp
+	}})
+
 	// QEshutdownBusy: the query event expires while Shutdown is waiting for a callback of the same group.
 	reg(&Scenario{Name: "QEshutdownBusy", Make: func(cfg Cfg) (func(), *Spec) {
 		qs := &QSpec{CB: "model", Requests: map[string]string{}, Events: 1, Shutdown: true}
@@ -265,6 +302,7 @@ func JudgeQuery(qs *QSpec, r *vsched.Result) []string {
 	queryPubs := 0
 	nilCalls := map[string]int{}
 	nilStep := map[string]int{}
+	var qstart int64
 	reqOfSend := map[string]string{}  // subject -> last reply (for arrived notes)
 	lastSendReply := map[int]string{} // thread -> reply
 	for _, e := range r.Events {
@@ -298,6 +336,14 @@ func JudgeQuery(qs *QSpec, r *vsched.Result) []string {
 				drainStep[f[1]] = e.Step
 			}
 			released[f[1]] = true
+		case "qstart":
+			fmt.Sscan(f[1], &qstart)
+		case "qnil":
+			var t int64
+			fmt.Sscan(f[1], &t)
+			if qs.MinNil > 0 && time.Duration(t-qstart) < qs.MinNil {
+				add("the query event expired after %v, the configured duration is %v", time.Duration(t-qstart), qs.MinNil)
+			}
 		case "enter":
 			id := f[1]
 			if strings.HasPrefix(id, "nil") {
